@@ -93,7 +93,7 @@ def translate(d, main, shadow):
         return cs[inv[repr(name)]]
 
     out = dict(d)
-    for k in ("node", "src", "dst", "parent", "root"):
+    for k in ("node", "src", "dst", "parent", "root", "witness_parent"):
         if k in out:
             out[k] = tr(out[k])
     if "children" in out:
@@ -193,7 +193,7 @@ def history_task(task):
                     if "serial" in mons:
                         keep = []
                         for sh in shadows:
-                            strict = sh[3] and d["op"] != "relabel"
+                            strict = sh[3] and d["op"] != "relabel" and d.get("inplace") != "relabel"
                             sh[3] = strict
                             sh[0] = hist.apply(sh[0], d if strict else translate(d, old, sh[0]))
                             dev = trees_equivalent(new, sh[0], tds, strict_names=strict)
